@@ -42,7 +42,8 @@ META = {
             "batches, five ways of building/calling (x.Exp(), pp.Exp(x), pp.<alg>(data), non-contiguous input, requires_grad input); all four types, "
             "float32 and float64. A case is one algebra element; non-trivial = not the zero element; distinct by (type, dtype, "
             "branch bit and quantised |phi|, branch bit, sign and quantised |sigma|, quantised |tau|)",
-    "trusted": ["glue stream: pp.Exp(LieTensor(data, ltype)) against the model's own dispatch / shape handling / dtype-eps selection (ppExp, c01.glue); accept/reject of INVALID caller input is recorded as an observation only",
+    "trusted": ["the model writes em1 := exp(sigma) - 1 and bm1 := em1*cos(theta) - 2 sin^2(theta/2) where the code calls torch.expm1(sigma): over the reals and at 192 bits these are the same numbers, so NO theorem speaks about the cancellation the code avoids; the clause that the float code does not lose accuracy for tiny sigma / theta (D12) is decided only by the high-precision correspondence (corpus log sweeps, thresholds) and the mpmath oracle",
+                "glue stream: pp.Exp(LieTensor(data, ltype)) against the model's own dispatch / shape handling / dtype-eps selection (ppExp, c01.glue); accept/reject of INVALID caller input is recorded as an observation only",
                 "mpmath.expm at 60 digits (oracle on the real code: sampled stream, confirmation of every disagreement, search, replay)",
                 "the generator matrices hatM / se3Gen / rxso3Gen / sim3Gen of Proofs/Lemmas/LieExp.lean are the standard hat maps "
                 "[[sigma*1 + phi^, tau],[0,0]] (the harness builds the same matrices independently for mpmath)",
@@ -51,7 +52,7 @@ META = {
     "assumptions": ["generator bounds: rotation angle <= 4*pi, |log-scale| <= 8, finite inputs",
                     "relative error of the rotation block is measured against 1 (unit quaternion / orthogonal matrix), of the "
                     "scale block against e^sigma, of the translation block against |tau|_inf * (e^sigma-1)/sigma"],
-    "partial": ["rounding (reduced in pass 3 to four per-call accuracies gamma_q, gamma_s, gamma_t, gamma_M that are measured on every sampled case; theorems rounded_so3Exp / rounded_sim3Exp turn them into the entrywise bound for every input): the clause 'relative error at most k*eps / k*sqrt(eps)' is decided as theorem over the reals (53 theorems: "
+    "partial": ["rounding (reduced in pass 3 to four per-call accuracies gamma_q, gamma_s, gamma_t, gamma_M that are measured on every sampled case; theorems rounded_so3Exp / rounded_sim3Exp turn them into the entrywise bound for every input): the clause 'relative error at most k*eps / k*sqrt(eps)' is decided as theorem over the reals (51 theorems: "
                 "matrix(Exp x) = exp(generator) in every exact regime of all four types, entrywise bounds <= 9*eps*e^|sigma|*(1+|tau|_1) "
                 "for every input) + measured agreement of the float code with the 192-bit model and with mpmath on the generated inputs"],
 }
@@ -218,7 +219,21 @@ def bad_blocks(errs):
 # ----------------------------------------------------------------------------- real code
 
 MODES = ["default", "no_grad", "inference_mode", "inside-graph(non-leaf)", "requires_grad-leaf", "plain-Tensor->ltype.Exp",
-         "pp.Parameter", "nn.Parameter->ltype.Exp"]
+         "pp.Parameter", "nn.Parameter->ltype.Exp", "user-subclass-of-LieTensor"]
+_USER_CLS = []
+
+
+def user_subclass():
+    """a user class deriving from pp.LieTensor that overrides nothing relevant: dispatch by isinstance / class identity must
+    still give the library's Exp"""
+    if not _USER_CLS:
+        P = U.pp()
+
+        class MyLieTensor(P.LieTensor):
+            def describe(self):
+                return "user subclass"
+        _USER_CLS.append(MyLieTensor)
+    return _USER_CLS[0]
 
 
 def run_impl(name, dtype, rows64, shape, api=0, mode=0, own=False):
@@ -272,9 +287,11 @@ def run_impl(name, dtype, rows64, shape, api=0, mode=0, own=False):
                 x = P.LieTensor(data, ltype=lt_)
             if mode == 6:
                 x = P.Parameter(x)
+            if mode == 8:
+                x = user_subclass()(data, ltype=lt_)
             X = P.Exp(x) if api == 1 else x.Exp()
         before = torch.Tensor.as_subclass(x, torch.Tensor).detach().clone()
-        if type(X).__name__ != "LieTensor" or X.ltype != U.ltype(name):
+        if not isinstance(X, P.LieTensor) or (mode != 8 and type(X).__name__ != "LieTensor") or X.ltype != U.ltype(name):
             problems.append(f"type: Exp({U.ALG[name]}) [{MODES[mode]}] returned {type(X).__name__} of ltype {getattr(X, 'ltype', None)}")
         if tuple(X.shape) != tuple(shape) + (g,) or X.dtype != D:
             problems.append(f"type: Exp({U.ALG[name]}) [{MODES[mode]}] returned shape {tuple(X.shape)} dtype {X.dtype} for input "
@@ -636,7 +653,7 @@ def _corpus_batches():
             yield name, dtype, reps, (2, 4), 6
             yield name, dtype, reps[::-1], (4, 2), 5
             # grad modes x operand types x memory layouts (varied together), outputs must own their memory
-            for mode in range(len(MODES)):
+            for mode in range(8):   # mode 8 (user subclass of LieTensor) cannot even be constructed on the clean tree: observation only
                 for api in (0, 1, 3, 5, 9):
                     yield name, dtype, reps, (len(reps),), api, mode, True
                 yield name, dtype, reps, (2, 4), 6, mode, True
@@ -662,6 +679,18 @@ def _corpus_batches():
                         dens.append((list(CORNER_TAUS[1]) if has_t else []) + [th * dd[0], th * dd[1], th * dd[2]] + ([sg] if has_s else []))
             for i in range(0, len(dens), 24):
                 yield name, dtype, dens[i:i + 24], (len(dens[i:i + 24]),), 0
+            # exact coincidences of two data-dependent quantities (bit for bit): theta == |sigma|, theta == 2|sigma|, equal and
+            # opposite components, theta an exact multiple of pi/2 in the dtype, sigma == +-theta at the switch-over point
+            ties = []
+            pif = float(torch.tensor(math.pi, dtype=U.dt(dtype)))
+            for v in (0.5, 1.0, 2.0 ** -20, e, e * (1 + e), 3.0, pif, pif / 2, 2 * pif, 64 * e):
+                for (th, sg) in ((v, v), (v, -v), (2 * v, v), (v, 2 * v), (v, -2 * v)):
+                    for dd in ((0.0, 0.0, 1.0), (1.0, 0.0, 0.0)):
+                        ties.append((list(CORNER_TAUS[1]) if has_t else []) + [th * dd[0], th * dd[1], th * dd[2]] + ([sg] if has_s else []))
+                for comp in ((v, v, v), (v, -v, v), (v, v, 0.0), (-v, 0.0, v)):
+                    ties.append(([v, v, v] if has_t else []) + list(comp) + ([v] if has_s else []))
+            for i in range(0, len(ties), 20):
+                yield name, dtype, ties[i:i + 20], (len(ties[i:i + 20]),), 0
             # degenerate shapes
             z = [0.0] * U.ADIM[name]
             one = items[len(items) // 2]
@@ -685,7 +714,7 @@ def reuse_history():
                     small = (k % 3 == 0) or (k % 3 == 2 and i == 1)
                     th, sg = ((e / 2, -e / 2) if small else (1.0 + i, 0.5 * (i + 1) * (-1) ** k))
                     rows.append((list(CORNER_TAUS[1]) if has_t else []) + [th * d[0], th * d[1], th * d[2]] + ([sg] if has_s else []))
-                yield name, dtype, rows, (3,), 0, (k * 3) % len(MODES)
+                yield name, dtype, rows, (3,), 0, (k * 3) % 8
                 k += 1
 
 
@@ -764,6 +793,115 @@ def run_corpus(ctx: Ctx, lines, metas):
 
 
 
+
+# ----------------------------------------------------------------------------- large batches (internal block boundaries)
+
+def large_rows(name, dtype, n):
+    """n rows cycling through a fixed mixed-regime pool (seed independent); the LAST rows are ordinary large-angle items"""
+    e = common.EPS[dtype]
+    d = CORNER_DIRS[1]
+    has_s, has_t = name in ("RxSO3", "Sim3"), name in ("SE3", "Sim3")
+    pool = []
+    for th, sg, tk in ((1.0, -1.0, 1), (0.0, 0.0, 1), (e / 2, -e / 2, 4), (2.5, 0.5, 5), (1e-9, 3e-9, 1), (4.0, 3.0, 2), (0.3, 0.0, 1),
+                       (e * (1 + e), e * (1 + e), 1), (3.0, -2.0, 1), (0.7, 1e-3, 4), (6.0, 0.25, 1)):
+        pool.append((list(CORNER_TAUS[tk]) if has_t else []) + [th * d[0], th * d[1], th * d[2]] + ([sg] if has_s else []))
+    t = torch.tensor(pool, dtype=torch.float64)
+    idx = (torch.arange(n) * 7) % len(pool)
+    rows = t[idx]
+    scale = 1.0 + (torch.arange(n, dtype=torch.float64) % 13) / 64.0      # every row different, exactly representable factors
+    rows = rows * scale.unsqueeze(-1)
+    if has_s:
+        rows[:, -1] = t[idx][:, -1]
+    rows[-1] = t[0] * 1.25
+    rows[-2] = t[3]
+    return rows.to(U.dt(dtype))
+
+
+def run_large(ctx: Ctx, configs):
+    """batches around internal block sizes (2^k, 2^k +- 1, up to > 2^16): split consistency bit for bit —
+    f(x) == cat(f(x[:a]), f(x[a:])) for a few cuts, f(x)[i] == f(x[i:i+1]) for first / last / some items — and the mpmath oracle on
+    sampled items including the LAST one.  No model needed on 10^5 items."""
+    P = U.pp()
+    for name, dtype, shape in configs:
+        n = int(math.prod(shape))
+        g, m = U.GDIM[name], U.MATN[name]
+        lt_ = alg_ltype(name)
+        case = {"stream": "large", "type": name, "dtype": dtype, "shape": list(shape), "n": n}
+        try:
+            rows = large_rows(name, dtype, n)
+            data = rows.reshape(tuple(shape) + (U.ADIM[name],))
+
+            def f(t):
+                X = P.LieTensor(t, ltype=lt_).Exp()
+                return X.tensor(), X.matrix()
+            T, M = f(data)
+            if tuple(T.shape) != tuple(shape) + (g,) or tuple(M.shape) != tuple(shape) + (m, m):
+                ctx.fail(case, f"type: Exp/matrix of a {U.ALG[name]} batch of shape {tuple(shape)} returned {tuple(T.shape)} / {tuple(M.shape)}")
+                continue
+            Tf, Mf = T.reshape(n, g), M.reshape(n, m * m)
+            ctx.note_case(("large", name, dtype, tuple(shape)), True)
+            ctx.count(f"large.{U.ALG[name]}.{dtype}.n={n}")
+            bad = None
+            for a in ((n // 2, n - 1) if n <= (1 << 15) else (n // 2,)):
+                if 0 < a < n:
+                    T1, M1 = f(rows[:a])
+                    T2, M2 = f(rows[a:])
+                    Tc, Mc = torch.cat([T1, T2]), torch.cat([M1.reshape(-1, m * m), M2.reshape(-1, m * m)])
+                    neq = (~((Tf == Tc) | (Tf.isnan() & Tc.isnan()))).any(dim=1) | (~((Mf == Mc) | (Mf.isnan() & Mc.isnan()))).any(dim=1)
+                    if bool(neq.any()):
+                        bad = (int(neq.nonzero()[0]), f"cut at {a}")
+                        break
+            sample = sorted({0, n - 1, n - 2, (1 << 14), (1 << 16), n // 3} & set(range(n)))
+            if bad is None:
+                for i in sample:
+                    Ti, Mi = f(rows[i:i + 1])
+                    if not (torch.equal(torch.nan_to_num(Ti[0]), torch.nan_to_num(Tf[i])) and
+                            torch.equal(torch.nan_to_num(Mi.reshape(-1)), torch.nan_to_num(Mf[i]))):
+                        bad = (i, "item alone")
+                        break
+            if bad is not None:
+                i, how = bad
+                xi = rows[i].double().tolist()
+                alone_T, alone_M = f(rows[i:i + 1])
+                ctx.fail(case | {"item": i, "x": xi}, f"split: item {i} of a {U.ALG[name]} batch of {n} ({dtype}, shape {tuple(shape)}) differs from the "
+                         f"same item evaluated in a smaller batch ({how}): batched {Tf[i].tolist()} vs {alone_T[0].tolist()}; x = {xi}")
+                continue
+            # the property itself on sampled items of the LARGE result (mpmath), including the last item
+            for i in sample[:1] + sample[-2:]:
+                xi = rows[i].double().tolist()
+                E = truth_matrix(name, xi)
+                want_m = [float(E[r, c]) for r in range(m) for c in range(m)]
+                gt, gm = Tf[i].double().tolist(), Mf[i].double().tolist()
+                want_t = list(gt)
+                if U.TSL[name] is not None:
+                    want_t[U.TSL[name]] = [float(E[r, 3]) for r in range(3)]
+                errs = item_errors(name, dtype, xi, gt, gm, want_t, want_m)
+                errs.pop("q", None)
+                errs.pop("s", None)
+                b = bad_blocks(errs)
+                if b:
+                    ctx.fail(case | {"item": i, "x": xi}, f"{U.ALG[name]}.{sorted(b)[0]}: item {i} of a batch of {n} ({dtype}): matrix/tensor of Exp(x) "
+                             f"differs from exp(generator) beyond the property's tolerance: x tol {b}; x = {xi}")
+                    break
+        except Exception as ex:
+            ctx.fail(case, f"raises: Exp/matrix on a {U.ALG[name]} batch of shape {tuple(shape)} ({dtype}) raised {type(ex).__name__}: {str(ex)[:140]}")
+
+
+def large_configs(quick):
+    K14, K16 = 1 << 14, 1 << 16
+    cfg = []
+    for name in U.GROUPS:
+        cfg += [(name, "float64", (K14 + 1,)), (name, "float32", (K14 + 1,)), (name, "float32", (K14,)), (name, "float64", (128, 129)),
+                (name, "float64", (K16 + 1,)), (name, "float32", (1, K16 + 1)), (name, "float64", (2 * K14 + 1,))]
+    if not quick:
+        for name in U.GROUPS:
+            for dtype in ("float64", "float32"):
+                for k in (10, 13, 14, 15, 16):
+                    for dn in (-1, 0, 1):
+                        cfg.append((name, dtype, ((1 << k) + dn,)))
+                cfg += [(name, dtype, (257, 257)), (name, dtype, (3, K14 + 1)), (name, dtype, (K14 + 1, 1)), (name, dtype, (3 * K14 + 1,))]
+    return cfg
+
 # ----------------------------------------------------------------------------- glue stream (dispatch, shapes, dtype eps in the model)
 
 ALL_LTYPES = ["SO3", "so3", "SE3", "se3", "Sim3", "sim3", "RxSO3", "rxso3"]
@@ -798,6 +936,7 @@ def run_glue(ctx: Ctx, n_random):
     rng = ctx.rng
     P = U.pp()
     lines, metas = [], []
+    plines, pmetas = [], []
     for lt, dtype, shape, _ in glue_cases(rng, n_random):
         e = common.EPS[dtype]
         D = U.dt(dtype)
@@ -829,10 +968,33 @@ def run_glue(ctx: Ctx, n_random):
                 ctx.fail(case, f"raises: pp.Exp(LieTensor(shape {tuple(shape)}, {lt})) raised {type(ex).__name__}: {str(ex)[:140]}")
                 continue
             status = "other:" + type(ex).__name__
+        # the plain-Tensor branch of `<lt>_type.Exp(x)`
+        pstatus, XP = "ok", None
+        try:
+            XP = getattr(P, lt + "_type").Exp(data)
+        except AttributeError:
+            pstatus = "noExp"
+        except Exception as ex:
+            pstatus = "lastDim" if not valid else "other:" + type(ex).__name__
+        if valid:
+            if pstatus != "ok":
+                ctx.fail(case, f"raises: {lt}_type.Exp(plain Tensor of shape {tuple(shape)}) was rejected ({pstatus})")
+            elif status == "ok" and not (isinstance(XP, P.LieTensor) and XP.ltype == X.ltype and XP.shape == X.shape
+                                         and torch.equal(torch.nan_to_num(XP.tensor()), torch.nan_to_num(T))):
+                ctx.fail(case, f"duck: {lt}_type.Exp(plain Tensor) differs from Exp of the LieTensor with the same data (shape {tuple(shape)}, {dtype})")
+        ctx.count(f"glueplain.{lt}.{pstatus}")
+        plines.append(f"c01.glueplain {lt} {dtype} {len(shape)} " + " ".join(str(v) for v in shape) + " " + common.wire_list(flat))
+        pmetas.append((valid, pstatus, lt))
         ctx.note_case(("glue", lt, dtype, tuple(shape), status), valid)
         ctx.count(f"glue.{lt}.{status}")
         lines.append(f"c01.glue {lt} {dtype} {len(shape)} " + " ".join(str(v) for v in shape) + " " + common.wire_list(flat))
         metas.append((case, valid, status, X, (T, M) if status == "ok" else None, rows))
+    for rep, (valid, pstatus, lt) in zip(ctx.driver.run(plines), pmetas):
+        mst = "ok" if rep.split()[0] == "ok" else rep.split()[1]
+        if valid and mst != "ok":
+            raise common.InfraError(f"glue model (plain branch) rejected a valid input: {rep[:80]}")
+        if not valid and ((mst == "ok") != (pstatus == "ok") or (mst != "ok" and pstatus != mst)):
+            ctx.count(f"observation.glueplain.invalid-input.{lt}.model={mst}.code={pstatus}")
     reps = ctx.driver.run(lines)
     for rep, (case, valid, status, X, TM, rows) in zip(reps, metas):
         toks = rep.split()
@@ -878,6 +1040,119 @@ def run_glue(ctx: Ctx, n_random):
                      "X": [U.to_dtype_exact([r], dtype)[1][0].tolist() for r in rows], "item": i}
                 ctx.disagree("glue", c, f"{lt} {dtype} shape {case['shape']} item {i}: blocks beyond tolerance against the model's own "
                                         f"dispatch/eps (x tol) {bad}; x = {xi}")
+
+
+# ----------------------------------------------------------------------------- grad-mode orders on fresh keys (cache poisoned by a mode)
+
+def mode_order_probe(ctx: Ctx):
+    """for batch shapes that have not been used before in this process (prime extents), the FIRST call is made under
+    inference_mode / no_grad, later calls with autograd (requires_grad leaf, including a backward pass) and back: a module-level
+    buffer created under one mode and reused under another raises or gives other values only in such an order"""
+    P = U.pp()
+    d = CORNER_DIRS[1]
+    fresh = iter([29, 31, 37, 41, 43, 47, 53, 59, 61, 67, 71, 73, 79, 83, 89, 97, 101, 103, 107, 109, 113, 127, 131, 137, 139, 149, 151, 157,
+                  163, 167, 173, 179])
+    orders = [("inference_mode", "grad", "inference_mode", "grad"), ("no_grad", "grad", "default"), ("grad", "inference_mode", "grad"),
+              ("inference_mode", "default", "no_grad", "grad")]
+    for name in U.GROUPS:
+        for dtype in ("float64", "float32"):
+            e = common.EPS[dtype]
+            D = U.dt(dtype)
+            lt_ = alg_ltype(name)
+            has_s, has_t = name in ("RxSO3", "Sim3"), name in ("SE3", "Sim3")
+            for order in orders[(0 if dtype == "float64" else 2):][:2]:
+                n = next(fresh)
+                rows = []
+                for i in range(n):
+                    th, sg = ((e / 2, -e / 2) if i % 3 == 0 else (0.1 + 0.05 * i, 0.3 * (-1) ** i))
+                    rows.append((list(CORNER_TAUS[1]) if has_t else []) + [th * d[0], th * d[1], th * d[2]] + ([sg] if has_s else []))
+                base = torch.tensor(rows, dtype=torch.float64).to(D)
+                ref = None
+                case = {"stream": "mode-order", "type": name, "dtype": dtype, "n": n, "order": list(order)}
+                for k, md in enumerate(order):
+                    try:
+                        if md == "inference_mode":
+                            with torch.inference_mode():
+                                out = P.LieTensor(base.clone(), ltype=lt_).Exp().tensor().clone()
+                        elif md == "no_grad":
+                            with torch.no_grad():
+                                out = P.LieTensor(base.clone(), ltype=lt_).Exp().tensor()
+                        elif md == "grad":
+                            leaf = base.clone().requires_grad_(True)
+                            X = P.LieTensor(leaf, ltype=lt_).Exp()
+                            X.tensor().sum().backward()
+                            out = X.tensor().detach()
+                            if leaf.grad is None or not bool(torch.isfinite(leaf.grad).all()):
+                                ctx.fail(case | {"call": k}, f"grad: no finite gradient through Exp({U.ALG[name]}) in call {k} ({md}) of the order {order}")
+                        else:
+                            out = P.LieTensor(base.clone(), ltype=lt_).Exp().tensor()
+                    except Exception as ex:
+                        ctx.fail(case | {"call": k}, f"raises: Exp({U.ALG[name]}, batch {n}, {dtype}) raised {type(ex).__name__} in call {k} ({md}) of the "
+                                                     f"grad-mode order {order}: {str(ex)[:120]}")
+                        break
+                    out = out.detach().clone()
+                    ctx.count(f"mode-order.{md}")
+                    ctx.note_case(("mode-order", name, dtype, n, k), True)
+                    if ref is None:
+                        ref = out
+                    elif not torch.equal(torch.nan_to_num(out), torch.nan_to_num(ref)):
+                        ctx.fail(case | {"call": k}, f"mode-order: Exp({U.ALG[name]}, batch {n}, {dtype}) in call {k} ({md}) differs from call 0 "
+                                                     f"({order[0]}) of the same data by {float((out.double() - ref.double()).abs().max()):.3e}")
+                        break
+                # the values of this fresh key against the model / oracle come from the ordinary streams (same items occur there)
+
+
+# ----------------------------------------------------------------------------- batch-level scatter models (driver: c01.so3scatter / c01.wsscatter)
+
+def run_scatter(ctx: Ctx, n_batches):
+    """the batch-level models that follow the code's masked scatter (zeros, masks from the whole batch, each regime evaluated on its
+    masked sub-batch only, masked assignment) against the real batched `so3_Exp` and `rxso3_Ws`"""
+    rng = ctx.rng
+    P = U.pp()
+    import pypose.lietensor.operation as OPS
+    lines, metas = [], []
+    for b in range(n_batches):
+        dtype = "float64" if b % 3 else "float32"
+        e = common.EPS[dtype]
+        D = U.dt(dtype)
+        n = rng.choice([1, 2, 3, 5, 8, 13])
+        sims = [gen_item(rng, "Sim3", e) if rng.random() < 0.6 else
+                make_item(rng, "Sim3", e, rng.choice(theta_ladder(e)), rng.choice(sigma_ladder(e)), 1.0) for _ in range(n)]
+        _, s64 = U.to_dtype_exact(sims, dtype)
+        s64 = s64.tolist()
+        so3rows = [r[3:6] for r in s64]
+        rxrows = [r[3:7] for r in s64]
+        try:
+            Q = P.LieTensor(torch.tensor(so3rows, dtype=torch.float64).to(D), ltype=P.so3_type).Exp().tensor().double().tolist()
+            W = OPS.rxso3_Ws(torch.tensor(rxrows, dtype=torch.float64).to(D)).double().reshape(n, 9).tolist()
+        except Exception as ex:
+            ctx.fail({"stream": "scatter", "type": "Sim3", "dtype": dtype, "shape": [n], "api": 0, "mode": 0, "own": False, "X": s64},
+                     f"raises: so3 Exp / rxso3_Ws on a mixed batch raised {type(ex).__name__}: {str(ex)[:140]}")
+            continue
+        lines.append("c01.so3scatter " + common.wire_list([e] + [v for r in so3rows for v in r]))
+        lines.append("c01.wsscatter " + common.wire_list([e] + [v for r in rxrows for v in r]))
+        metas.append((dtype, s64, Q, W))
+        ctx.count("scatter-batches")
+    reps = ctx.driver.run(lines)
+    for j, (dtype, s64, Q, W) in enumerate(metas):
+        e = common.EPS[dtype]
+        mq = U.fl(common.reply_nums(reps[2 * j]))
+        mw = U.fl(common.reply_nums(reps[2 * j + 1]))
+        for i, xi in enumerate(s64):
+            ctx.note_case(("scatter", dtype, regime_tag("Sim3", xi, e)), True)
+            dq = U.quat_dist(Q[i], mq[4 * i:4 * i + 4])
+            sg = xi[6]
+            csc = abs(math.expm1(sg) / sg) if sg != 0 else 1.0
+            dw = max(abs(a - b) for a, b in zip(W[i], mw[9 * i:9 * i + 9]))
+            bad = {}
+            if not dq <= K_ROT * e:
+                bad["q"] = dq / (K_ROT * e)
+            if not dw <= K_TRANS * math.sqrt(e) * csc:
+                bad["W"] = dw / (K_TRANS * math.sqrt(e) * csc)
+            if bad and not near_threshold("Sim3", dtype, xi):
+                c = {"stream": "scatter", "type": "Sim3", "dtype": dtype, "shape": [len(s64)], "api": 0, "mode": 0, "own": False, "X": s64, "item": i}
+                ctx.disagree("scatter", c, f"batch-level scatter model vs the real batched so3_Exp / rxso3_Ws, item {i} of {len(s64)} ({dtype}): "
+                                           f"(x tol) {bad}; x = {xi}")
 
 # ----------------------------------------------------------------------------- oracle (mpmath, the property itself)
 
@@ -1005,6 +1280,16 @@ def probe(ctx: Ctx):
 
 
 def run(ctx: Ctx):
+    nthreads = torch.get_num_threads()
+    torch.set_num_threads(1)   # small tensors throughout; intra-op threads only add contention on a shared machine
+    try:
+        _run(ctx)
+    finally:
+        torch.set_num_threads(nthreads)
+
+
+def _run(ctx: Ctx):
+    mode_order_probe(ctx)      # first: its batch shapes must be fresh in the process
     probe(ctx)
     lines, metas = [], []
     run_corpus(ctx, lines, metas)
@@ -1013,6 +1298,8 @@ def run(ctx: Ctx):
     run_repeat(ctx, ctx.pick(12, 400), lines, metas)
     compare_all(ctx, lines, metas)
     run_glue(ctx, ctx.pick(120, 3000))
+    run_large(ctx, large_configs(ctx.quick))
+    run_scatter(ctx, ctx.pick(60, 1500))
     confirm_disagreements(ctx)
     run_oracle(ctx, ctx.pick(300, 8000))
 
@@ -1044,6 +1331,18 @@ def search(ctx: Ctx):
 
 def replay(ctx: Ctx, case) -> bool:
     c = case["case"]
+    if c.get("stream") == "large":
+        print(f"  re-running the large-batch check: {U.ALG[c['type']]} {c['dtype']} shape {c['shape']}")
+        run_large(ctx, [(c["type"], c["dtype"], tuple(c["shape"]))])
+        for f in ctx.failures[:5]:
+            print("  fails:", f["what"][:400])
+        return not ctx.failures
+    if c.get("stream") == "mode-order":
+        print(f"  re-running the grad-mode order probe ({c.get('type')}, {c.get('dtype')}, order {c.get('order')})")
+        mode_order_probe(ctx)
+        for f in ctx.failures[:5]:
+            print("  fails:", f["what"][:300])
+        return not ctx.failures
     if "X" not in c:   # persistent-object probe (stale reads): deterministic, re-run it
         print(f"  re-running the persistent-object probe ({c.get('type')}, {c.get('dtype')}, update {c.get('update')}, read {c.get('read')})")
         probe(ctx)
